@@ -141,4 +141,101 @@ theorem invocations_concat (fuel : Nat) (body : Stmt) (n : Nat) (st : St) (evs :
   rcases Option.map_eq_some_iff.1 h with ⟨r, hr, rfl⟩
   exact mainLoop_of_exec fuel body hwf n none st r (by simp [entryOf, h0]) hr
 
+/-- the state PT_SPAWN leaves before calling the child: child `pt_t` cleared, own `*pt` = the spawn's line -/
+def spawned (st : St) (l : Label) : St := (st.initKid l).setPt l
+
+theorem spawned_kid_pt (st : St) (l : Label) : ((spawned st l).me.kid l).pt = 0 := by
+  simp [spawned, St.setPt, St.initKid, PtSt.setPt, PtSt.kid, PtSt.setKid, PtSt.kids, PtSt.pt]
+
+/-- **PT_SPAWN starts the child from its beginning each time it is reached** (not through its own
+`case` label), whatever state an earlier activation left in the child's `pt_t`: the child body is
+run with entry `none`, and the parent's outcome is `joinPost` of the child's. -/
+theorem spawn_restarts_child (fuel : Nat) (l : Label) (ch : Stmt) (e : Option Label) (res : Code) (n : Nat) (st : St)
+    (he : e ≠ some l) :
+    exec fuel (spawn l ch) e res n st =
+      joinPost (spawned st l) l (exec fuel ch none .yielded n ((spawned st l).enter l)) := by
+  rw [exec_spawn_fresh _ _ _ _ _ _ _ he, exec_join_eq]
+  show (match entryOf ch ((spawned st l).me.kid l).pt with | none => _ | some e' => _) = _
+  rw [spawned_kid_pt]; rfl
+
+/-- when the parent is re-entered at the spawn's label the child is called again *without* PT_INIT:
+it continues from its own stored label -/
+theorem spawn_resumes_child (fuel : Nat) (l : Label) (ch : Stmt) (res : Code) (n : Nat) (st : St)
+    (p : Label) (hp : (st.me.kid l).pt = p) (hpl : p ∈ labels ch) (hp0 : p ≠ 0) :
+    exec fuel (spawn l ch) (some l) res n st = joinPost st l (exec fuel ch (some p) .yielded n (st.enter l)) := by
+  rw [exec_spawn_at, exec_join_eq, hp, entryOf_label hpl hp0]
+
+/-- **PT_SPAWN relays the child's yields and waits upward unchanged**: same code, same events, the
+parent's `*pt` stays at the spawn (so the next invocation comes back to it) -/
+theorem spawn_relays (st : St) (l : Label) (c : Code) (st2 : St) (n2 : Nat) (t : List Ev) (hb : c.blocking = true) :
+    joinPost st l (some (.ret c st2 n2 t)) = some (.ret c (st.wrap l st2) n2 t) ∧ (st.wrap l st2).me.pt = st.me.pt := by
+  simp [joinPost, hb, St.wrap, PtSt.setKid, PtSt.pt]
+
+/-- **PT_SPAWN continues the parent once the child exits or fails** (PT_EXIT/PT_FAIL or falling off
+PT_END), with `pt_spawn_res` holding the child's result -/
+theorem spawn_continues (st : St) (l : Label) (st2 : St) (n2 : Nat) (t : List Ev) :
+    (∀ r0, joinPost st l (some (.normal st2 r0 n2 t)) = some (.normal (st.wrap l st2) .exited n2 t)) ∧
+    (∀ c, c.blocking = false → joinPost st l (some (.ret c st2 n2 t)) = some (.normal (st.wrap l st2) c n2 t)) := by
+  refine ⟨fun _ => rfl, fun c hc => ?_⟩
+  simp [joinPost, hc]
+
+/-- **PT_CHILD_OK reflects the child's result**: after a spawn that completed with result `c`, the
+`if (PT_CHILD_OK())` takes its first branch iff `c ≠ PT_FAILED` -/
+theorem child_ok_reflects (fuel : Nat) (a b : Stmt) (c : Code) (n : Nat) (st : St) :
+    exec fuel (ifChildOk a b) none c n st = if c ≠ .failed then exec fuel a none c n st else exec fuel b none c n st :=
+  exec_ico_none ..
+
+/-- PT_SPAWN_AND_CHECK: the spawn, then `PT_FAIL_ON(!PT_CHILD_OK())` — a failed child makes the parent
+return PT_FAILED, any other completion lets it continue -/
+theorem spawn_and_check_reflects (fuel : Nat) (l : Label) (ch : Stmt) (e : Option Label) (res : Code) (n : Nat) (st : St)
+    (he : e = none ∨ e = some l) :
+    exec fuel (spawnAndCheck l ch) e res n st =
+      match exec fuel (spawn l ch) e res n st with
+      | some (.normal st1 c n1 t) => some (if c = .failed then .ret .failed st1 n1 t else .normal st1 c n1 t)
+      | r => r := by
+  rw [exec_sac]
+  have : exec fuel (seq (spawn l ch) (ifChildOk skip fail)) e res n st =
+      Out.andThen (exec fuel (spawn l ch) e res n st) (fun st1 r1 n1 => exec fuel (ifChildOk skip fail) none r1 n1 st1) := by
+    rcases he with rfl | rfl
+    · exact exec_seq_none ..
+    · exact exec_seq_left _ _ _ _ _ _ _ (by simp [labels])
+  rw [this]
+  cases exec fuel (spawn l ch) e res n st with
+  | none => rfl
+  | some r =>
+    cases r with
+    | ret => rfl
+    | abort => rfl
+    | normal st1 c n1 t =>
+      simp only [Out.andThen, exec_ico_none]
+      by_cases hc : c = .failed
+      · subst hc; simp [exec, Out.prepend]
+      · simp [hc, exec, Out.prepend]
+
+/-! ## Non-vacuity: a concrete body with a blocking point in a loop in a conditional, a child spawned
+from inside a loop, PT_WAIT_UNTIL with a side-effecting condition, PT_CALL and PT_CHILD_OK -/
+
+def demo : Stmt :=
+  seq (eff 1)
+    (seq (ifte (.lt 1 5)
+            (.while (.not (.incMod 8 2)) (seq (yield 0) (seq (spawn 0 (seq (eff 7) (seq (wait 0) (failOn (.odd 3))))) (ifChildOk (eff 2) (eff 3)))))
+            (waitUntil 0 (.postIncGe 9 1)))
+      (seq (call 0 (seq (yield 0) (eff 5))) (spawnAndCheck 0 (seq (waitUntil 0 (.incMod 10 1)) (exitOn (.tickGe 3))))))
+
+def demoL : Stmt := (relabel demo 1).1
+
+example : WF demoL := relabel_wf demo
+/-- the hypothesis of `invocations_concat` is met by a run that really blocks, in a loop in a conditional,
+through a child spawned inside the loop (twice, restarted each time), a PT_CALL and a PT_SPAWN_AND_CHECK -/
+theorem demo_seq : seqRun 50 demoL 20 St.init =
+    some [.eff 1, .ret .yielded, .eff 7, .ret .waiting, .eff 3, .ret .yielded, .eff 7, .ret .waiting, .eff 3,
+          .eff 5, .ret .waiting, .ret .exited] := by
+  simp [demoL, demo, relabel, seqRun, exec, block, waitLoop, evalCond, St.init, St.bump, St.setVar, St.setPt, St.initKid, St.enter, St.wrap,
+    entryOf, labels, PtSt.kid, PtSt.setKid, PtSt.setPt, PtSt.pt, PtSt.kids, Out.prepend, Code.blocking]
+
+example : (mainLoop 50 demoL 21 St.init).map flatLog =
+    some [.eff 1, .ret .yielded, .eff 7, .ret .waiting, .eff 3, .ret .yielded, .eff 7, .ret .waiting, .eff 3,
+          .eff 5, .ret .waiting, .ret .exited] :=
+  invocations_concat 50 demoL 20 St.init _ (relabel_wf demo) rfl demo_seq
+
 end Librfn.C08
